@@ -40,7 +40,9 @@ GROUPS = ["wallet", "blockrelay", "messenger", "controller", "cache", "validator
           # the dirk account manager: second and later refreshes of one instance || account queries
           "dirk",
           # the sync committee duty pipeline through the controller's scheduling path (aliased structures)
-          "syncduty"]
+          "syncduty",
+          # attestation jobs of one epoch's slots on the entries of the epoch's subscription info || head events
+          "attinfo"]
 # (package of the driver, test binary name); the controller driver lives inside the controller package
 # because it reuses the C03 controller harness (package-internal)
 DRIVERS = {
@@ -74,7 +76,11 @@ MUST_VIOLATE = {"MC_Concurrency_inplace_registrar.cfg":
                  "SharedImmutable"),
                 "MC_Concurrency_alias_schedule_accounts.cfg":
                 ("a slot's scheduling goroutine writes the period's accounts map (members without an account)",
-                 "SharedImmutable")}
+                 "SharedImmutable"),
+                # group attinfo
+                "MC_Concurrency_alias_job_subscription_entries.cfg":
+                ("an attestation job removes its slot from the epoch's published subscription info when the aggregator "
+                 "has no account, while the jobs of the epoch's other slots read the entries without the lock", "Disciplined")}
 # ... and the control of that control: the same rendering is right as long as an instance sees ONE refresh (what
 # a check that starts every schedule on a fresh instance looks at) - must HOLD
 MUST_HOLD = {"MC_Concurrency_reuse_dirk_fresh.cfg":
@@ -85,7 +91,10 @@ MUST_HOLD = {"MC_Concurrency_reuse_dirk_fresh.cfg":
              "apart from the controller looks at)",
              "MC_Concurrency_alias_message_indices_narrow.cfg":
              "the message job writes its duty's map for members without an account, in the NARROW environment in "
-             "which every member has one"}
+             "which every member has one",
+             "MC_Concurrency_alias_job_subscription_entries_narrow.cfg":
+             "the attestation job that alters the published subscription info, in the NARROW environment in which the "
+             "attester returns no attestations (the job ends before it looks at the info)"}
 
 # Guard table keys -> how an access site is recognised in the source (file suffix, regex on the source line).
 # The names are the variables of Concurrency!Guard; anything else racing inside Vouch is reported under the
@@ -120,6 +129,8 @@ SITES = [
     ("cache.executionChainHead", "services/cache/standard/", r"\bs\.executionChainHead(Root|Height)\b"),
     ("syncaggregator.beaconBlockRoots", "services/synccommitteeaggregator/standard/", r"\bs\.beaconBlockRoots\b"),
     ("controller.subscriptionInfos", "services/controller/standard/", r"\bs\.subscriptionInfos\b"),
+    # the entries of an epoch's subscription info picked up through the field (read by the attestation jobs without the lock)
+    ("controller.subscriptionInfos.entries", "services/controller/standard/attester.go", r"\bsubscriptionInfoMap\b|\bslotInfoMap\b|\binfo\.\w+"),
     ("controller.pendingAttestations", "services/controller/standard/", r"\bs\.pendingAttestations\b"),
     ("bestproposal.priorBlocksVotes", "strategies/beaconblockproposal/best/", r"\bs\.priorBlocksVotes\b"),
     ("builderbid.relayPubkeys", "strategies/builderbid/", r"\bs\.relayPubkeys\b"),
@@ -140,7 +151,7 @@ def groups():
 
 
 def driver_of(g):
-    if g == "syncduty":
+    if g in ("syncduty", "attinfo"):
         return "controller"
     return g if g in ("controller", "dirk") else "ext"
 
@@ -576,7 +587,8 @@ def run(tier):
     # non-vacuity of the lock discipline: the pinned rendering of the suspected defects must violate Disciplined, and so
     # must the renderings of a CLASS of change (in-place registration round, re-used key list).  Small models,
     # started now, side by side, next to the exhaustive run
-    small = concurrent.futures.ThreadPoolExecutor(max_workers=6)
+    small = concurrent.futures.ThreadPoolExecutor(max_workers=7)
+    side = concurrent.futures.ThreadPoolExecutor(max_workers=3)       # the second exhaustive run, the schedule generation
     futs, must = {}, {}
     if full:
         futs = {g: small.submit(vf.tlc, PID, "mc-pinned-" + g, "Concurrency", "MC_Concurrency_pinned_%s.cfg" % g, workers=1, timeout=600)
@@ -588,13 +600,21 @@ def run(tier):
     sync_mc = None
     if "syncduty" in gs:
         # group syncduty over the whole alphabet of its environment, next to the other groups' run
-        sync_mc = small.submit(vf.tlc_exhaustive, PID, "Concurrency", "MC_Concurrency_syncduty.cfg", workers=4)
+        sync_mc = side.submit(vf.tlc_exhaustive, PID, "Concurrency", "MC_Concurrency_syncduty.cfg", workers=4)
+    sync_big = None
+    if "syncduty" in gs and tier == "thorough":
+        # three calls, every choice of accounts / history, the requests answered (but head root and head block)
+        sync_big = side.submit(vf.tlc_exhaustive, PID, "Concurrency", "MC_Concurrency_syncduty_big.cfg", workers=4, timeout=1500)
+    sched_f = side.submit(schedules, tier)
     v.add_mc(vf.tlc_exhaustive(PID, "Concurrency", "MC_Concurrency.cfg"))
     if sync_mc is not None:
         v.add_mc(sync_mc.result())
     if full:
         if tier == "thorough":
             v.add_mc(vf.tlc_exhaustive(PID, "Concurrency", "MC_Concurrency_big.cfg", timeout=1500))
+    if sync_big is not None:
+        v.add_mc(sync_big.result())
+    if full:
         if True:
             for g in PINNED_VIOLATES:
                 r = futs[g].result()
@@ -614,7 +634,8 @@ def run(tier):
                 if not r["ok"]:
                     raise vf.Broken("%s (%s) does not hold (%s %s)" % (cfg, what, r["kind"], r["violated"]))
     small.shutdown()
-    scs = [s for s in schedules(tier) if s["g"] in gs]
+    scs = [s for s in sched_f.result() if s["g"] in gs]
+    side.shutdown()
     for b in builds:
         b.result()
     builder.shutdown()
